@@ -28,6 +28,9 @@ package keeper
 //@ ensures C20/cancel-empties-escrow: err == nil ==> bal(goCtx, types.GetSpotOrderAddress(msg.OrderId), d) == 0
 //@ ensures C20/cancel-removes-order: err == nil ==> !snd(k.GetPendingSpotOrder(goCtx, msg.OrderId))
 //@ ensures C20/cancel-touches-nobody-else: err == nil && a != unbech32(o.OwnerAddress) && a != types.GetSpotOrderAddress(msg.OrderId) ==> bal(goCtx, a, d) == old(bal(goCtx, a, d))
+//@ forall j Int
+//@ ensures C20/escrows-of-the-other-order-kind-untouched: err == nil && isUser(unbech32(o.OwnerAddress)) ==> bal(goCtx, types.GetPerpOrderAddress(j), d) == old(bal(goCtx, types.GetPerpOrderAddress(j), d))
+//@ ensures C20/escrows-of-other-spot-orders-untouched: err == nil && isUser(unbech32(o.OwnerAddress)) && j != msg.OrderId ==> bal(goCtx, types.GetSpotOrderAddress(j), d) == old(bal(goCtx, types.GetSpotOrderAddress(j), d))
 
 //@ func (msgServer).CancelSpotOrders
 //@ forall a Addr
@@ -58,6 +61,8 @@ package keeper
 //@ func (Keeper).ExecuteStopLossOrder
 //@ forall a Addr
 //@ forall d Str
+//@ forall j Int
+//@ ensures C20/escrows-of-the-other-order-kind-untouched: bal(ctx, types.GetPerpOrderAddress(j), d) == old(bal(ctx, types.GetPerpOrderAddress(j), d))
 //@ requires isUser(unbech32(order.OwnerAddress))
 //@ ensures C20/funds-conserved-on-every-exit: bal(ctx, unbech32(order.OwnerAddress), d) + bal(ctx, order.GetOrderAddress(), d) == old(bal(ctx, unbech32(order.OwnerAddress), d) + bal(ctx, order.GetOrderAddress(), d))
 //@ ensures C20/nobody-else-moves: a != unbech32(order.OwnerAddress) && a != order.GetOrderAddress() ==> bal(ctx, a, d) == old(bal(ctx, a, d))
@@ -67,6 +72,8 @@ package keeper
 //@ func (Keeper).ExecuteLimitSellOrder
 //@ forall a Addr
 //@ forall d Str
+//@ forall j Int
+//@ ensures C20/escrows-of-the-other-order-kind-untouched: bal(ctx, types.GetPerpOrderAddress(j), d) == old(bal(ctx, types.GetPerpOrderAddress(j), d))
 //@ requires isUser(unbech32(order.OwnerAddress))
 //@ ensures C20/funds-conserved-on-every-exit: bal(ctx, unbech32(order.OwnerAddress), d) + bal(ctx, order.GetOrderAddress(), d) == old(bal(ctx, unbech32(order.OwnerAddress), d) + bal(ctx, order.GetOrderAddress(), d))
 //@ ensures C20/nobody-else-moves: a != unbech32(order.OwnerAddress) && a != order.GetOrderAddress() ==> bal(ctx, a, d) == old(bal(ctx, a, d))
@@ -76,6 +83,8 @@ package keeper
 //@ func (Keeper).ExecuteLimitBuyOrder
 //@ forall a Addr
 //@ forall d Str
+//@ forall j Int
+//@ ensures C20/escrows-of-the-other-order-kind-untouched: bal(ctx, types.GetPerpOrderAddress(j), d) == old(bal(ctx, types.GetPerpOrderAddress(j), d))
 //@ requires isUser(unbech32(order.OwnerAddress))
 //@ ensures C20/funds-conserved-on-every-exit: bal(ctx, unbech32(order.OwnerAddress), d) + bal(ctx, order.GetOrderAddress(), d) == old(bal(ctx, unbech32(order.OwnerAddress), d) + bal(ctx, order.GetOrderAddress(), d))
 //@ ensures C20/nobody-else-moves: a != unbech32(order.OwnerAddress) && a != order.GetOrderAddress() ==> bal(ctx, a, d) == old(bal(ctx, a, d))
@@ -105,6 +114,9 @@ package keeper
 //@ ensures C20/cancel-returns-the-collateral: err == nil ==> bal(goCtx, unbech32(o.OwnerAddress), d) == old(bal(goCtx, unbech32(o.OwnerAddress), d)) + ite(d == o.Collateral.Denom, o.Collateral.Amount, 0) && bal(goCtx, types.GetPerpOrderAddress(msg.OrderId), d) == old(bal(goCtx, types.GetPerpOrderAddress(msg.OrderId), d)) - ite(d == o.Collateral.Denom, o.Collateral.Amount, 0)
 //@ ensures C20/cancel-removes-order: err == nil ==> !snd(k.GetPendingPerpetualOrder(goCtx, msg.OrderId))
 //@ ensures C20/cancel-touches-nobody-else: err == nil && a != unbech32(o.OwnerAddress) && a != types.GetPerpOrderAddress(msg.OrderId) ==> bal(goCtx, a, d) == old(bal(goCtx, a, d))
+//@ forall j Int
+//@ ensures C20/escrows-of-the-other-order-kind-untouched: err == nil ==> bal(goCtx, types.GetSpotOrderAddress(j), d) == old(bal(goCtx, types.GetSpotOrderAddress(j), d))
+//@ ensures C20/escrows-of-other-perpetual-orders-untouched: err == nil && j != msg.OrderId ==> bal(goCtx, types.GetPerpOrderAddress(j), d) == old(bal(goCtx, types.GetPerpOrderAddress(j), d))
 
 //@ func (msgServer).CreatePerpetualOpenOrder
 //@ bound !r0 1
